@@ -48,6 +48,7 @@ func main() {
 	aInc := flag.String("assert-include", "", "only check assertions whose id matches")
 	aExc := flag.String("assert-exclude", "", "skip assertions whose id matches")
 	shard := flag.String("shard", "", "i/n: explore only alternatives i, i+n, ... of the first free choice")
+	deep := flag.Bool("deep", false, "thorough tier: verifDeep() answers true (harnesses widen their bounds)")
 	flag.Parse()
 	if *cpuprof != "" {
 		f, _ := os.Create(*cpuprof)
@@ -140,6 +141,7 @@ func main() {
 	}
 	defer solver.Close()
 	solver.noDom = *noDom
+	deepTier = *deep
 
 	ex := &Exec{
 		prog:     prog,
